@@ -577,7 +577,7 @@ def planner_flag(pg, uv):
     return not bool(fft > mft)
 
 
-def lens_requests(case, obs, rec, rng, lines, plan):
+def _lens_requests(case, obs, rec, rng, lines, plan):
     """Pipeline tie: the modelled selection + selected pipeline + norm factor on unit impulses (driver op `lens`)."""
     p = case['pupil']
     fo = case['focal']
@@ -611,10 +611,203 @@ def lens_requests(case, obs, rec, rng, lines, plan):
             plan.append(('lens', rec, 'fwd', jx, jy, ky * len(xs) + kx, cheaper, 'sep'))
 
 
+def _fspec(f):
+    return 'const %s' % rat(f['a']) if f['kind'] == 'const' else 'affine %s %s' % (rat(f['a']), rat(f['b']))
+
+
+N_COMP = {'scalar': 1, 'scalar-stokes': 4, 'jones': 2, 'matrix': 4}
+
+
+def _obj_requests(case, obs, rec, rng, lines, plan, cur_ok):
+    """Object tie (driver op `obj`): the executed record functions LensProp.forward/backward on a whole wavefront (every tensor
+    component its own scaled impulse, wavelength, Stokes vector), for regular / separated / unstructured / polar focal grids,
+    optionally after `prop.focal_length = ...` on the same object (and back)."""
+    p = case['pupil']
+    fo = case['focal']
+    pg, fg = obs['pupil_grid'], obs['focal_grid']
+    if rec.get('d4') or 'uv_grid' not in rec or fg.size == 0:
+        return
+    nx, ny = p['dims']
+    lam = rec['lam']
+    setter = None
+    if rng.random() < 0.3:
+        setter = _spec(rng)
+        if rng.random() < 0.3:
+            setter['a'] = -setter['a']
+            if setter['kind'] == 'callable':
+                setter['b'] = -setter['b']
+    f_now = f_value(setter, lam) if setter else rec['f']
+    if f_now * lam == 0 or d4_affected(pg, fg, lam, f_now):
+        setter, f_now = None, rec['f']
+    regular = fg.is_regular and fg.is_('cartesian')
+    mat_real = _nft_precompute()
+    if regular:
+        if not cur_ok:
+            return
+        grid = 'cur'
+        mx, my = int(fg.dims[0]), int(fg.dims[1])
+        dirs = ['fwd', 'bwd']
+    elif fo['kind'] == 'separated':
+        grid = 'sep %s %s' % (rat_list(fo['x']), rat_list(fo['y']))
+        mx, my = len(fo['x']), len(fo['y'])
+        dirs = ['fwd']
+    else:
+        c = fg.as_('cartesian')
+        w = np.asarray(fg.weights, dtype=float) * np.ones(fg.size)
+        grid = 'pts %s %s %s' % (rat_list([float(v) for v in c.x]), rat_list([float(v) for v in c.y]), rat_list([float(v) for v in w]))
+        mx, my = fg.size, 1
+        dirs = ['fwd', 'bwd']
+    d = dirs[int(rng.integers(0, len(dirs)))]
+    flag = None
+    if regular:
+        flag = planner_flag(pg, fg.scaled(2 * np.pi / (f_now * lam)))
+        cheaper = 0 if flag is None else int(flag)
+    else:
+        cheaper = int(rng.integers(0, 2))
+    mat = int(mat_real) if rng.random() < 0.7 else int(rng.integers(0, 2))
+    emu = int(rng.integers(0, 2))
+    n = N_COMP[case['wf']]
+    amp = case.get('amp') or [0] * {'scalar': 1, 'scalar-stokes': 1, 'jones': 2, 'matrix': 4}[case['wf']]
+    comps = []
+    for t in range(n):
+        if d == 'fwd':
+            ix, iy = int(rng.integers(0, nx)), int(rng.integers(0, ny))
+        else:
+            ix, iy = int(rng.integers(0, mx)), int(rng.integers(0, my))
+        a = Fraction(int(rng.integers(1, 8)) * (-1 if rng.random() < 0.3 else 1), 4) * Fraction(2) ** int(amp[t % len(amp)])
+        comps.append([ix, iy, a])
+    if case['wf'] == 'scalar-stokes':
+        # Wavefront.__init__ turns the scalar field E into the Jones matrix E * identity
+        comps = [comps[0], comps[0][:2] + [Fraction(0)], comps[0][:2] + [Fraction(0)], comps[0]]
+    if d == 'fwd':
+        kx, ky = int(rng.integers(0, mx)), int(rng.integers(0, my))
+    else:
+        kx, ky = int(rng.integers(0, nx)), int(rng.integers(0, ny))
+    st = '-' if case['stokes'] is None else rat_list(case['stokes'])
+    if setter:
+        lines.append('C03 setf ' + _fspec(setter)); plan.append(('ok', rec))
+    lines.append('C03 obj %s %s %d %d %d %s [%d,%d] %d %s %s' % (d, rat(lam), cheaper, mat, emu, st, kx, ky, len(comps),
+                 ' '.join('[%d,%d,%s]' % (c[0], c[1], rat(c[2])) for c in comps), grid))
+    plan.append(('obj', rec, d, comps, (kx, ky), (mx, my), setter, f_now, flag, regular))
+    if setter:
+        lines.append('C03 setf ' + _fspec(case['f'])); plan.append(('ok', rec))
+
+
+def lens_requests(case, obs, rec, rng, lines, plan):
+    n0, p0 = len(lines), len(plan)
+    try:
+        _lens_requests(case, obs, rec, rng, lines, plan)
+    except MachineryError:
+        raise
+    except Exception as ex:
+        del lines[n0:], plan[p0:]
+        lines.append('C03 alias')
+        plan.append(('obj-fault', rec, '%s: %s' % (type(ex).__name__, ex)))
+
+
+def obj_requests(case, obs, rec, rng, lines, plan, cur_ok):
+    """A fault while observing the implementation (grids, planner inputs) is a broken correspondence, reported by compare_model."""
+    n0, p0 = len(lines), len(plan)
+    try:
+        _obj_requests(case, obs, rec, rng, lines, plan, cur_ok)
+    except MachineryError:
+        raise
+    except Exception as ex:
+        del lines[n0:], plan[p0:]
+        lines.append('C03 alias')
+        plan.append(('obj-fault', rec, '%s: %s' % (type(ex).__name__, ex)))
+
+
+def compare_obj(ctx, case, obs, item, resp):
+    try:
+        _compare_obj(ctx, case, obs, item, resp)
+    except MachineryError:
+        raise
+    except Exception as ex:
+        ctx.disagree('C03 object tie: fault while observing the running code', {'case': case, 'error': '%s: %s' % (type(ex).__name__, ex)})
+
+
+def _nft_precompute():
+    try:
+        import hcipy
+        return bool(hcipy.Configuration().fourier.nft.precompute_matrices)
+    except Exception:
+        return False
+
+
+def _compare_obj(ctx, case, obs, item, resp):
+    import hcipy
+    _, rec, d, comps, (kx, ky), (mx, my), setter, f_now, flag, regular = item
+    p = case['pupil']
+    pg, fg, prop = obs['pupil_grid'], obs['focal_grid'], obs['prop']
+    kv = _kv(resp)
+    lam = rec['lam']
+    ts = {'scalar': (), 'scalar-stokes': (), 'jones': (2,), 'matrix': (2, 2)}[case['wf']]
+    nx = p['dims'][0]
+    gin, gout = (pg, fg) if d == 'fwd' else (fg, pg)
+    win, wout = (nx, mx) if d == 'fwd' else (mx, nx)
+    e = np.zeros(ts + (gin.size,), dtype=complex)
+    src = [comps[0]] if case['wf'] == 'scalar-stokes' else comps
+    for t, (ix, iy, a) in enumerate(src):
+        e.reshape(-1, gin.size)[t, iy * win + ix] = float(a)
+    wf = make_wavefront(case, hcipy.Field(e, gin), lam)
+
+    def as_arg(spec):
+        if spec['kind'] == 'callable':
+            a, b = spec['a'], spec['b']
+            return lambda wl: a + b * wl
+        return spec['a']
+    what = 'obj %s%s' % (d, ' after-setter' if setter else '')
+    try:
+        if setter:
+            prop.focal_length = as_arg(setter)
+        try:
+            out = prop.forward(wf) if d == 'fwd' else prop.backward(wf)
+            real_ft = type(prop.get_instance_data(pg, None, lam).fourier_transform).__name__
+        finally:
+            if setter:
+                prop.focal_length = as_arg(case['f'])
+    except Exception as ex:
+        ctx.disagree('C03 object tie: the running code raised', {'case': case, 'lam': lam, 'dir': d, 'setter': setter, 'error': '%s: %s' % (type(ex).__name__, ex)})
+        return
+    got = np.asarray(out.electric_field).reshape(-1, gout.size)[:, ky * wout + kx]
+    vals = kv['vals'].split(';')
+    real = {'FastFourierTransform': 'fft', 'MatrixFourierTransform': 'mft', 'NaiveFourierTransform': 'naive'}.get(real_ft, real_ft)
+    ctx.count('obj:%s %s model=%s code=%s%s' % (d, case['wf'], kv['method'], real, ' after-setter' if setter else ''))
+    if len(vals) != len(got):
+        ctx.disagree('C03 object tie: number of tensor components', {'case': case, 'model': len(vals), 'impl': len(got)})
+        return
+    for t, (v, g) in enumerate(zip(vals, got)):
+        c_, t_ = v.split(':')
+        ph = 2 * math.pi * float(parse_rat(t_))
+        want = float(parse_rat(c_)) * complex(math.cos(ph), math.sin(ph))
+        if not abs(complex(g) - want) <= TOL * abs(want):
+            ctx.count('DISAGREE %s component model=%s code=%s' % (what, kv['method'], real))
+            ctx.disagree('C03 object tie (%s, %s, model method %s, code %s)' % (what, case['wf'], kv['method'], real),
+                         {'case': case, 'lam': lam, 'dir': d, 'component': t, 'comps': [[c[0], c[1], str(c[2])] for c in comps],
+                          'index': [kx, ky], 'setter': setter, 'impl': str(complex(g)), 'model': str(want)})
+            break
+    if float(parse_rat(kv['lam'])) != out.wavelength:
+        ctx.disagree('C03 object tie: wavelength of the result', {'case': case, 'model': kv['lam'], 'impl': repr(out.wavelength)})
+    sv = out.input_stokes_vector
+    if (kv['stokes'] == '-') != (sv is None) or (sv is not None and [float(x) for x in parse_rat_list(kv['stokes'])] != [float(x) for x in sv]):
+        ctx.disagree('C03 object tie: Stokes vector of the result', {'case': case, 'model': kv['stokes'], 'impl': None if sv is None else [float(x) for x in sv]})
+    if regular:
+        expect = 'mft' if flag is None else real
+    else:
+        expect = 'mft' if case['focal']['kind'] == 'separated' else 'naive'
+    if kv['method'] != expect or real != expect:
+        ctx.count('DISAGREE obj method model=%s code=%s' % (kv['method'], real))
+        ctx.disagree('C03 object tie: method selection', {'case': case, 'lam': lam, 'model': kv['method'], 'impl': real_ft, 'setter': setter,
+                                                        'float_native_and_planner': flag})
+
+
 def model_requests(case, obs, rng):
     """Request lines for one case and a plan describing how to compare the answers."""
     p = case['pupil']
     lines, plan = [], []
+    lines.append('C03 session %s [%d,%d] %s %s' % (rat_list(p['delta']), p['dims'][0], p['dims'][1], rat_list(p['zero']), _fspec(case['f'])))
+    plan.append(('ok', None))
     fo = case['focal']
     pg, fg = obs['pupil_grid'], obs['focal_grid']
     for rec in obs['per_lam']:
@@ -659,6 +852,7 @@ def model_requests(case, obs, rng):
                     continue        # polar -> cartesian conversion is not rational
             plan.append(('impulse', rec, jx, jy, kf))
         lens_requests(case, obs, rec, rng, lines, plan)
+        obj_requests(case, obs, rec, rng, lines, plan, cur_ok=(fo['kind'] in ('ffpg', 'mfg') or (regular and obs['exact'] is not None)))
     return lines, plan
 
 
@@ -669,7 +863,18 @@ def compare_model(ctx, case, obs, plan, answers):
     cur_grid_ok = True
     for item, resp in zip(plan, answers):
         kind, rec = item[0], item[1]
+        if kind == 'ok':
+            if resp != 'ok':
+                ctx.disagree('C03 model rejected a session/setter request', {'case': case, 'model': resp})
+            continue
+        if kind == 'obj-fault':
+            ctx.disagree('C03 object tie: fault while observing the running code', {'case': case, 'error': item[2]})
+            continue
         ctx.traces_validated += 1
+        if kind == 'obj':
+            if cur_grid_ok or not item[9]:
+                compare_obj(ctx, case, obs, item, resp)
+            continue
         if kind == 'setup':
             kv = _kv(resp)
             re_, im_ = kv['norm'].split(':')
@@ -930,6 +1135,7 @@ def oracle_session(sess, observe=None):
     log = []
     kcache = {}
     kept = []
+    wfs, calls = [], []          # every wavefront object in order of creation / the call history (object-identity tie)
     for op in sess['ops']:
         if op['op'] == 'setf':
             cur = op['f']
@@ -965,6 +1171,12 @@ def oracle_session(sess, observe=None):
             continue
         # results are values: earlier results unchanged, no memory shared with earlier results / input / internals
         garr = np.asarray(out.electric_field)
+        wfs += [wf, out]
+        calls.append('f1' if case['stokes'] is not None else 'f0')
+        sv_out = out.input_stokes_vector
+        if sv_out is not None and (np.shares_memory(sv_out, wf.input_stokes_vector) or any(
+                k[0].input_stokes_vector is not None and np.shares_memory(sv_out, k[0].input_stokes_vector) for k in kept)):
+            bad.append(('result-aliases-stokes-vector', 'the Stokes vector of the returned wavefront is the same ndarray as that of its input or of an earlier result (history %s)' % prev))
         bad += results_still_valid(kept, 'after %s (history %s)' % (op['op'], prev))
         bad += result_is_independent(prop, pupil_grid, lam, garr, np.asarray(wf.electric_field), kept, prev)
         kept.append((out, garr.copy(), '%s #%d' % (op['op'], len(kept))))
@@ -988,6 +1200,8 @@ def oracle_session(sess, observe=None):
                 bad += results_still_valid(kept, 'after chained call (history %s)' % prev)
                 bad += result_is_independent(prop, pupil_grid, lam, np.asarray(out2.electric_field), garr, kept, prev)
                 kept.append((out2, np.asarray(out2.electric_field).copy(), 'chained #%d' % len(kept)))
+                calls.append('c%d' % (len(wfs) - 1))
+                wfs.append(out2)
             except Exception as e:
                 bad.append(('reuse raises %s' % type(e).__name__, 'chained call raised %s: %s after %s' % (type(e).__name__, e, prev)))
         scale = float(np.abs(ref).max())
@@ -1008,7 +1222,7 @@ def oracle_session(sess, observe=None):
         prev = prev + '>' + op['op'] + ('(c64)' if op['dtype'] == 'c64' else '')
     bad += inputs_unchanged(snap, pupil_grid, focal_grid)
     if observe is not None:
-        observe.update({'log': log, 'pupil_grid': pupil_grid, 'focal_grid': focal_grid})
+        observe.update({'log': log, 'pupil_grid': pupil_grid, 'focal_grid': focal_grid, 'wfs': wfs, 'calls': calls})
     return bad
 
 
@@ -1048,7 +1262,40 @@ def session_requests(sess, obs):
             lines.append('C03 setf ' + spec(item[1])); plan.append(None)
         else:
             lines.append('C03 at ' + rat(item[1])); plan.append(item)
+    if obs.get('calls'):
+        lines.append('C03 alias ' + ' '.join(obs['calls'])); plan.append(('alias', obs['wfs']))
     return lines, plan
+
+
+def compare_alias(ctx, sess, wfs, resp):
+    """Object identity: the ndarray objects the executed allocation model says a call history creates (all distinct: theorem
+    calls_create_distinct_arrays) against np.shares_memory between the field / Stokes arrays of the real wavefronts."""
+    kv = _kv(resp)
+    refs = kv['ids'].split(';')
+    if len(refs) != len(wfs):
+        ctx.disagree('C03 object identity: number of wavefronts', {'session': sess, 'model': len(refs), 'impl': len(wfs)})
+        return
+    arrs, ids = [], []
+    for r, w in zip(refs, wfs):
+        fid, sid = r.split(':')
+        sv = w.input_stokes_vector
+        if (sid == '-') != (sv is None):
+            ctx.disagree('C03 object identity: Stokes vector present', {'session': sess, 'model': r, 'impl': sv is not None})
+            return
+        arrs.append(np.asarray(w.electric_field)); ids.append(int(fid))
+        if sv is not None:
+            arrs.append(np.asarray(sv)); ids.append(int(sid))
+    ctx.count('alias:arrays', len(arrs))
+    if int(kv['arrays']) != len(arrs):
+        ctx.disagree('C03 object identity: number of distinct ndarray objects', {'session': sess, 'model': kv['arrays'], 'impl': len(arrs)})
+    for a in range(len(arrs)):
+        for b in range(a + 1, len(arrs)):
+            same_model = ids[a] == ids[b]
+            same_real = bool(np.shares_memory(arrs[a], arrs[b]))
+            if same_model != same_real:
+                ctx.disagree('C03 object identity: arrays %d and %d of the call history %s' % (a, b, 'share memory in the running code but are distinct objects in the model'
+                             if same_real else 'are one object in the model but distinct in the running code'), {'session': sess, 'model_ids': kv['ids']})
+                return
 
 
 def compare_session(ctx, sess, plan, answers):
@@ -1058,6 +1305,14 @@ def compare_session(ctx, sess, plan, answers):
                 raise MachineryError('model answered %r' % resp)
             continue
         ctx.traces_validated += 1
+        if item[0] == 'alias':
+            try:
+                compare_alias(ctx, sess, item[1], resp)
+            except MachineryError:
+                raise
+            except Exception as ex:
+                ctx.disagree('C03 object identity: fault while observing the running code', {'session': sess, 'error': '%s: %s' % (type(ex).__name__, ex)})
+            continue
         kv = _kv(resp)
         re_, im_ = kv['norm'].split(':')
         nf = complex(float(parse_rat(re_)), float(parse_rat(im_)))
